@@ -231,6 +231,19 @@ ACCESSORS = ("components", "scores", "components_amplitude", "components_phase",
              "periods", "filter_patterns", "decorrelation_time", "get_params")
 
 
+def query_all(m):
+    """every accessor, without arguments and with normalized=False / True; errors are ignored (each accessor has its own check)"""
+    for name in ACCESSORS:
+        f = getattr(m, name, None)
+        if f is None:
+            continue
+        for kw in ({}, {"normalized": False}, {"normalized": True}):
+            try:
+                f(**kw)
+            except Exception:
+                pass
+
+
 def exercise(m, *data, light=False):
     """call everything a user may have called on a fitted model before the calls under test: every accessor, transform of
     the data, inverse_transform of the scores, compute(), serialize(). Errors are ignored here (each has its own check);
@@ -278,7 +291,8 @@ def other_like(rng, da, scale=1.0):
 
 
 # ---------------------------------------------------------------- prior use of model objects, for every check
-_PRIOR = {"count": 0, "every": 0, "installed": False, "busy": False, "seen": set(), "done": 0, "failed": 0, "last": False}
+_PRIOR = {"count": 0, "every": 0, "installed": False, "busy": False, "seen": set(), "done": 0, "failed": 0, "last": False,
+          "fits": 0, "queried": 0, "last_queried": False}
 
 
 def other_like_any(rng, obj):
@@ -331,12 +345,64 @@ def install_prior_use(every=6):
                         _PRIOR["failed"] += 1
                     finally:
                         _PRIOR["busy"] = False
-            return orig(self, *a, **kw)
+            res = orig(self, *a, **kw)
+            # every fourth completed fit (of an eager model on in-memory data) is followed at once by a round of queries: every accessor
+            # without arguments and with both settings of `normalized`. Reading results changes nothing (C14): whatever the check reads
+            # afterwards must be what the fit left.
+            if _PRIOR["every"] and not _PRIOR["busy"]:
+                _PRIOR["fits"] += 1
+                _PRIOR["last_queried"] = False
+                if _PRIOR["fits"] % 4 == 2 or os.environ.get("VERIF_QUERY_EVERY") == "1":
+                    _PRIOR["busy"] = True
+                    try:
+                        eager = bool(self.get_params().get("compute", True))
+                        lazy_in = any("dask" in type(getattr(x, "data", None)).__module__ for x in a[:nfields] if hasattr(x, "data"))
+                        if eager and not lazy_in:
+                            query_all(self)
+                            _PRIOR["queried"] += 1
+                            _PRIOR["last_queried"] = True
+                    except Exception:
+                        pass
+                    finally:
+                        _PRIOR["busy"] = False
+            return res
         cls.fit = fit
     wrap(BaseModelSingleSet, 1)
     wrap(BaseModelCrossSet, 2)
+
+    def wrap_rotator(cls):
+        orig = cls.fit
+
+        def fit(self, model, *a, **kw):
+            res = orig(self, model, *a, **kw)
+            # the same round of queries after every fourth fit of an eager rotator, on the rotator and on the model it was fitted on
+            if _PRIOR["every"] and not _PRIOR["busy"]:
+                _PRIOR["fits"] += 1
+                _PRIOR["last_queried"] = False
+                if _PRIOR["fits"] % 4 == 2 or os.environ.get("VERIF_QUERY_EVERY") == "1":
+                    _PRIOR["busy"] = True
+                    try:
+                        if bool(self.get_params().get("compute", True)) and bool(model.get_params().get("compute", True)):
+                            query_all(self)
+                            query_all(model)
+                            _PRIOR["queried"] += 1
+                            _PRIOR["last_queried"] = True
+                    except Exception:
+                        pass
+                    finally:
+                        _PRIOR["busy"] = False
+            return res
+        cls.fit = fit
+    try:
+        from xeofs.cross.cpcca_rotator import CPCCARotator
+        from xeofs.single.eof_rotator import EOFRotator
+        wrap_rotator(EOFRotator)
+        wrap_rotator(CPCCARotator)
+    except Exception:
+        pass
     _PRIOR["installed"] = True
 
 
 def prior_use_counts():
-    return dict(objects_seen=_PRIOR["count"], with_prior_use=_PRIOR["done"], prior_use_refused=_PRIOR["failed"], every=_PRIOR["every"])
+    return dict(objects_seen=_PRIOR["count"], with_prior_use=_PRIOR["done"], prior_use_refused=_PRIOR["failed"], every=_PRIOR["every"],
+                fits_seen=_PRIOR["fits"], fits_followed_by_a_round_of_queries=_PRIOR["queried"])
